@@ -15,8 +15,9 @@ RULE = (
     "multi-output merge, overlap window, down-chunking, exhaust): every disjoint source row set of <=N rows on a 0..G grid "
     "x every law-abiding chunking (incl. empty and zero-duration chunks; independent per source) x config cells "
     "(processor, max_workers, lazy/eager, max_messages, rechunk target) x every subset of non-target data types pre-stored "
-    "with a different chunking; oracle: rows == whole-run reference, chunks tile contiguously, everything saved re-reads "
-    "to the reference from a fresh context. Schedule slice: delay-bounded exploration of the threaded processor. "
+    "with a different chunking x {one storage frontend, a second empty writable frontend (every third input)}; oracle: rows == "
+    "whole-run reference, chunks tile contiguously, everything saved re-reads to the reference from a fresh context - from "
+    "each frontend separately when there are two. Schedule slice: delay-bounded exploration of the threaded processor. "
     "non-trivial: >=1 source row and >=2 chunks; distinct by (graph, rows, chunking, cell, stored subset)."
 )
 ASSUMPTIONS = [
@@ -101,9 +102,9 @@ def node_attrs(spec, cell, world_types):
     return attrs
 
 
-def run_case(res, gname, spec, sources, cell, stored, explore_sched=None):
+def run_case(res, gname, spec, sources, cell, stored, explore_sched=None, two_frontends=False):
     proc, workers, lazy, mm, rc, par = cell
-    case = dict(graph=gname, sources=sources, cell=cell, stored=sorted(stored))
+    case = dict(graph=gname, sources=sources, cell=cell, stored=sorted(stored), two_frontends=two_frontends)
     ref = g.reference(spec, sources)
     target = g.final_target(spec)
     types = g.all_types(spec)
@@ -113,8 +114,14 @@ def run_case(res, gname, spec, sources, cell, stored, explore_sched=None):
     opts = dict(g.CTX_DEFAULTS)
     opts.update(allow_lazy=lazy, max_messages=mm, allow_rechunk=rc is not None)
 
-    def ctx():
-        return strax.Context(storage=[strax.DataDirectory(d)], register=classes, **opts)
+    d2 = d + "_second"
+    import shutil as _sh
+
+    _sh.rmtree(d2, ignore_errors=True)
+
+    def ctx(second=False, only_second=False):
+        sto = [strax.DataDirectory(d2)] if only_second else [strax.DataDirectory(d)] + ([strax.DataDirectory(d2)] if second else [])
+        return strax.Context(storage=sto, register=classes, **opts)
 
     try:
         # ---- pre-store the subset with a different chunking, single-thread, one by one
@@ -129,8 +136,8 @@ def run_case(res, gname, spec, sources, cell, stored, explore_sched=None):
                 world.sources[s]["bounds"] = sources[s]["bounds"]
             world.log.clear()
             world.calls.clear()
-        # ---- the run under test
-        st = ctx()
+        # ---- the run under test (two_frontends: a second, empty, writable frontend - everything computed goes to both)
+        st = ctx(second=two_frontends)
         save = tuple(t for t in types if t not in stored)
         kw = dict(save=save, max_workers=workers)
         if explore_sched is None:
@@ -178,6 +185,25 @@ def run_case(res, gname, spec, sources, cell, stored, explore_sched=None):
                 res.violation(f"stored-tiling:{gname}", f"{t}: {m}", case)
             if not ctxrun.rows_equal(ctxrun.concat(cs), ref[t]):
                 res.violation(f"stored-rows:{gname}", f"stored {t} differs from the reference", case)
+
+
+    if two_frontends:
+        st3 = ctx(only_second=True)
+        for t in types:
+            if t in need and t not in stored:
+                try:
+                    if not st3.is_stored(RUN, t):
+                        res.violation(f"second-frontend:not-saved:{gname}", f"{t} was computed but is not stored in the second frontend", case)
+                        continue
+                    cs = ctxrun.get_chunks(st3, RUN, t, processor="single_thread")
+                    if not ctxrun.rows_equal(ctxrun.concat(cs), ref[t]) or ctxrun.tiling_violation(cs):
+                        res.violation(f"second-frontend:rows:{gname}", f"{t} stored in the second frontend differs from the reference", case)
+                except Exception as e:
+                    res.violation(f"second-frontend:raised:{type(e).__name__}", f"{t}: {e}"[:300], case)
+        res.count("two_frontend_cases")
+        import shutil
+
+        shutil.rmtree(d2, ignore_errors=True)
 
 
 def needed_types(spec, target, stored):
@@ -275,7 +301,7 @@ def run_job(job):
                 if nrows >= 1 and nch >= 2:
                     res.nt(gname, tuple(sorted((k, v["iv"], v["bounds"]) for k, v in sources.items())), cell, tuple(sorted(stored)))
                 res.add_set("cell_subset_pairs", (cell, tuple(sorted(stored))))
-                run_case(res, gname, spec, sources, cell, stored)
+                run_case(res, gname, spec, sources, cell, stored, two_frontends=(i // nsh + seed) % 3 == 0)
             res.sample(dict(graph=gname, sources=sources, cells=len(cells), stored_subsets=len(subs)), cap=1)
         res.count("cases_" + gname, res.evals)
     else:
@@ -345,7 +371,7 @@ def replay(case):
         if s.deadlock:
             viol = viol or "deadlock"
         return [dict(fingerprint="sched:" + str(key), what=viol)] if viol else []
-    run_case(res, case["graph"], spec, sources, cell, stored)
+    run_case(res, case["graph"], spec, sources, cell, stored, two_frontends=case.get("two_frontends", False))
     return res.violations
 
 
@@ -355,3 +381,5 @@ def sanity(total, tier):
             return f"graph {gname}: only {total.counters.get('cases_'+gname,0)} cases"
     if total.counters.get("sched_executions", 0) < 50:
         return "schedule slice explored fewer than 50 executions"
+    if total.counters.get("two_frontend_cases", 0) < 200:
+        return "fewer than 200 cases with a second writable frontend"
